@@ -572,6 +572,22 @@ class Interp:
         return v
 
     def binop(self, op, a, b):
+        from . import typed as _t
+
+        if isinstance(a, _t.TE) or isinstance(b, _t.TE):
+            if isinstance(op, ast.Add):
+                return _t.add(a, b, "add")
+            if isinstance(op, ast.Sub):
+                return _t.add(a, b, "sub")
+            if isinstance(op, ast.Mult):
+                return _t.mul(a, b)
+            if isinstance(op, ast.Div):
+                return _t.div(a, b)
+            if isinstance(op, ast.Pow):
+                return _t.power(a, b)
+            if isinstance(op, ast.MatMult):
+                return _t.apply(a, b)
+            raise Refuse("operator on typed expressions: " + type(op).__name__)
         if isinstance(op, ast.Add):
             if isinstance(a, (list, tuple)) and isinstance(b, type(a)):
                 return a + b
@@ -630,6 +646,10 @@ class Interp:
         if isinstance(e, ast.UnaryOp):
             v = self.eval(e.operand, env)
             if isinstance(e.op, ast.USub):
+                from . import typed as _t
+
+                if isinstance(v, _t.TE):
+                    return _t.neg(v)
                 return s_neg(v)
             if isinstance(e.op, ast.UAdd):
                 return lift(v)
@@ -733,9 +753,9 @@ class Interp:
         if isinstance(op, ast.NotIn):
             return a not in [num(x) for x in self.iterate(b)]
         if isinstance(op, ast.Is):
-            return a is b
+            return a == b if isinstance(a, str) and isinstance(b, str) else a is b
         if isinstance(op, ast.IsNot):
-            return a is not b
+            return a != b if isinstance(a, str) and isinstance(b, str) else a is not b
         raise Refuse("comparison operator")
 
     def getitem(self, cont, idx):
@@ -819,6 +839,8 @@ class Interp:
         kwargs = {k.arg: self.eval(k.value, env) for k in e.keywords if k.arg is not None}
         if isinstance(f, Closure):
             return f(*args)
+        if callable(f) and not isinstance(f, (ClassInfo, Obj)):
+            return f(*args, **kwargs)
         if isinstance(f, tuple):
             kind = f[0]
             if kind == "supermethod":
